@@ -109,6 +109,27 @@ class Obligation:
         return "<Obl %s>" % self.name
 
 
+class AxiomList(list):
+    """assumptions that are definitional for terms created on one path: each remembers the path it was
+    created on and is only asserted in obligations of that path's extensions (facts of sibling paths are noise)"""
+
+    def __init__(self, cx):
+        list.__init__(self)
+        self.cx = cx
+        self.paths = []
+
+    def append(self, term):
+        list.append(self, term)
+        self.paths.append(self.cx.current_path)
+
+    def extend(self, terms):
+        for t in terms:
+            self.append(t)
+
+    def for_path(self, path):
+        return [t for t, p in zip(self, self.paths) if p is None or path.startswith(p) or p.startswith(path)]
+
+
 class Ctx:
     """One verification context (one function, lemma or group): collects declarations and
     obligations; every query is printed against the same declaration list."""
@@ -120,7 +141,8 @@ class Ctx:
         self.sorts = T.Sorts()
         self.sorts.known |= PRELUDE_SORTS
         self.consts = []  # (name, sort)
-        self.axioms = []  # global assertions (definitions of ground tables)
+        self.current_path = None
+        self.axioms = AxiomList(self)  # definitional assumptions, tagged with the path that created them
         self.obligations = []
         self.covers = []  # (name, pc, ndecl): path conditions of reached exits (vacuity guard)
         self.trivial = []  # goals the term builder already reduced to `true`
@@ -163,7 +185,7 @@ class Ctx:
         out = [self.header()]
         for n, s in self.consts:
             out.append("(declare-const %s %s)" % (n, s))
-        for a in self.axioms:
+        for a in self.axioms.for_path(cov[0].split("#", 1)[1] if "#" in cov[0] else ""):
             out.append("(assert %s)" % a)
         for h in cov[1]:
             out.append("(assert %s)" % h)
@@ -217,81 +239,98 @@ class Ctx:
             res.extend(Ctx.conjuncts(c))
         return res
 
+    def spec_reach(self):
+        if getattr(self, "_reach", None) is None:
+            import ast as _ast
+            names = set(self.specs.specfns)
+            direct = {}
+            for n, sf in self.specs.specfns.items():
+                direct[n] = {x.id for x in _ast.walk(sf.node) if isinstance(x, _ast.Name) and x.id in names and x.id != n}
+            reach = {}
+            for n in names:
+                seen, todo = set(), [n]
+                while todo:
+                    x = todo.pop()
+                    for y in direct.get(x, ()):
+                        if y not in seen:
+                            seen.add(y)
+                            todo.append(y)
+                reach[n] = seen
+            self._reach = reach
+        return self._reach
+
     def same_clause_hyps(self, hyps, goal):
         """hypotheses restricted to: untagged facts (path conditions, definitions, axioms) and the conjuncts
         that instantiate the same specification predicates as the goal (the induction hypothesis of an
         invariant is the same predicate).  Dropping hypotheses is sound."""
         tags = self.term_tags
-        gt = {tags[c] for c in Ctx.conjuncts(goal) if c in tags}
+
+        def tag_of(t):
+            if t in tags:
+                return tags[t]
+            if t.startswith("(=> "):
+                parts = Ctx.conjuncts("(and " + t[4:])  # the two arguments of =>
+                if len(parts) == 2:
+                    return tag_of(parts[1])
+            return None
+
+        gt = {tag_of(c) for c in Ctx.conjuncts(goal)} - {None}
         if not gt:
             return None
+        # predicates the goal's predicates are built from count as "the same clause"
+        reach = self.spec_reach()
+        for g in list(gt):
+            gt |= reach.get(g, set())
         out = []
         for h in hyps:
             for c in Ctx.conjuncts(h):
-                tg = tags.get(c)
+                tg = tag_of(c)
                 if tg is None or tg in gt:
                     out.append(c)
         # among those, only what talks about the goal's symbols or the symbols of their definitions
         return self.relevant_hyps(out, goal, level=0)
 
     def relevant_hyps(self, hyps, goal, rounds=3, level=1):
-        """cone of influence over the generated constants (names containing ! or @): dropping hypotheses
-        is always sound; the full query is the fallback"""
+        """hypothesis selection by distance in the symbol graph (generated constants, names containing ! or @):
+        breadth-first from the goal's symbols, nearest and smallest facts first, until a size budget is used
+        up.  Dropping hypotheses is always sound; the full query is the fallback."""
         import re
         if Ctx._SYM is None:
             Ctx._SYM = re.compile(r"[A-Za-z_][A-Za-z0-9_<>.]*[!@][0-9]+")
         syms = [set(Ctx._SYM.findall(h)) for h in hyps]
-        n = max(1, len(hyps))
-        freq = {}
-        for ss in syms:
-            for x in ss:
-                freq[x] = freq.get(x, 0) + 1
-        common = {x for x, c in freq.items() if c > 0.4 * n and n > 15}
-        goal_syms = set(Ctx._SYM.findall(goal)) - common
-        keep = [False] * len(hyps)
-        cone = set(goal_syms)
-
-        def def_name(h):
-            return h[3:].split(" ", 1)[0] if h.startswith("(= ") else None
-
-        if level == 0:
-            # definitions closure of the goal's symbols, then every fact that mentions a symbol of it
-            changed = True
-            while changed:
-                changed = False
-                for i, ss in enumerate(syms):
-                    if not keep[i] and def_name(hyps[i]) in cone:
-                        keep[i] = True
-                        changed = True
-                        cone |= (ss - common)
+        budget = 120000 if level else 40000
+        dist = [None] * len(hyps)
+        frontier = set(Ctx._SYM.findall(goal))
+        seen = set(frontier)
+        d = 0
+        while frontier and d < 6:
+            nxt = set()
             for i, ss in enumerate(syms):
-                if (ss & cone) or not ss:
-                    keep[i] = True
-            return [h for h, kf in zip(hyps, keep) if kf]
-        # round 0: everything that talks about a (rare) symbol of the goal, whatever its size
-        for i, ss in enumerate(syms):
-            if (ss & goal_syms) or not ss:
-                keep[i] = True
-                if len(hyps[i]) < 2500:
-                    cone |= (ss - common)
-        # expansion: only small facts (definitions, kinds, equalities) pull in more
-        for _ in range(rounds):
-            changed = False
-            for i, ss in enumerate(syms):
-                if not keep[i] and len(hyps[i]) < 2500 and ((ss - common) & cone):
-                    keep[i] = True
-                    changed = True
-                    cone |= (ss - common)
-            if not changed:
-                break
-        return [h for h, kf in zip(hyps, keep) if kf]
+                if dist[i] is None and (ss & frontier):
+                    dist[i] = d
+                    # big facts do not propagate relevance further (they mention almost everything)
+                    if len(hyps[i]) < 3000:
+                        nxt |= ss - seen
+            seen |= nxt
+            frontier = nxt
+            d += 1
+        order = sorted((i for i in range(len(hyps)) if dist[i] is not None or not syms[i]),
+                       key=lambda i: (dist[i] if dist[i] is not None else 0, len(hyps[i])))
+        out, used = [], 0
+        for i in order:
+            if used + len(hyps[i]) > budget and (dist[i] or 0) > 0:
+                continue
+            out.append(i)
+            used += len(hyps[i])
+        out.sort()
+        return [hyps[i] for i in out]
 
     def query(self, ob, negate=True, extra="", relevant=False, level=1):
         """SMT-LIB text: hypotheses /\\ not goal  (unsat == obligation holds)."""
         out = [self.header()]
         for n, s in self.consts:
             out.append("(declare-const %s %s)" % (qsym(n), s))
-        hyps = list(self.axioms) + list(ob.hyps)
+        hyps = self.axioms.for_path(ob.meta.get("path", "")) + list(ob.hyps)
         if relevant and level == "same":
             hh = self.same_clause_hyps(hyps, ob.goal)
             if hh is None:
